@@ -61,3 +61,12 @@ Theorem C05_catch_with_transforms : forall m p dat d e0 c, p_catch p = Some c ->
      if e0 then v else snd (sem_pts_loop (fun q e => mk_unknown_issue q (dtype_of (p_kind p)) e) true (p_pts p) v).
 Proof. exact catch_with_transforms. Qed.
 Print Assumptions C05_catch_with_transforms.
+
+(** behind a pointer: a present input allocates the pointer and it points to the catching node's
+    value — the catch value when the node failed; never an issue *)
+Theorem C05_catch_behind_pointer : forall p pz v e0 c, p_catch p = Some c -> p_pts p = [] -> parse_zero v = false ->
+  snd (sem Parse (SPtr (SPrim p) None pz) (DVal v) (DPtr None) e0)
+  = DPtr (Some (match p_coerce p v with Some x => if all_ok (p_tests p) x then x else c | None => c end))
+  /\ rerrored (fst (sem Parse (SPtr (SPrim p) None pz) (DVal v) (DPtr None) e0)) = false.
+Proof. exact catch_behind_pointer. Qed.
+Print Assumptions C05_catch_behind_pointer.
